@@ -98,6 +98,7 @@ def body(ck):
     ck.assumptions = ["exact float64 arithmetic on dyadic data", "sac_train's minibatch equals the whole buffer when batch_size = stored count (the loss is permutation invariant)"]
     ck.not_proved = ["'no gradient reaches the target networks' and 'the actor loss does not move the critics' are facts about eqx.filter_value_and_grad / the optimiser plumbing: confirmed numerically on every case, modelled as data flow only"]
     ck.build_coq(); ck.compile_props()
+    ck.kernel_link()   # dqn_loss / SAC compute_target regenerated from the source = Losses kernels (coq/link/C07_link.v)
     quick = ck.tier == "quick"
     rng = ck.rng
     dy = lambda lo, hi, den: float(rng.integers(lo, hi + 1)) / den
